@@ -112,6 +112,112 @@ Definition ns_iter (k : nkind) (s : numset) : option (list Z) :=
       end)
     (Some []) (map Z.of_nat (seq 0 (Z.to_nat (ns_bits s)))).
 
+(* ---- NumberSetIter { seq, at_bit, rev_at_bit } (Iterator + DoubleEndedIterator), is_empty ---- *)
+(* the iterator state; NumberSet::iter() starts at at_bit = 0, rev_at_bit = num_bits *)
+Record nsit := IT { it_at : Z; it_rev : Z }.
+Definition ns_iter_start (s : numset) : nsit := IT 0 (ns_bits s).
+(* one call of next() / next_back(): Some(x) with the new state, None, or a panic (bitmap index out
+   of bounds; `N::from(i64::from(bit)) + bitmap_base` overflows the number type, debug build) *)
+Inductive istep := IYield (x : Z) (it : nsit) | IDone | IPanicS.
+
+(* bit indexing formula from RTPS spec v2.3 Section 9.4.2.6, as both loops write it:
+   bitmap[(bit / 32) as usize] & (1 << (31 - bit % 32)) != 0 *)
+Definition have_one (s : numset) (bit : Z) : option bool :=
+  match nth_error (ns_words s) (Z.to_nat (bit / 32)) with
+  | None => None
+  | Some w => Some (Z.testbit w (31 - bit mod 32))
+  end.
+
+(* NumberSetIter::next:
+     while self.at_bit < self.rev_at_bit {
+       let have_one = ...bitmap[at_bit / 32] & (1 << (31 - at_bit % 32)) != 0;
+       self.at_bit += 1;
+       if have_one { return Some(N::from(i64::from(self.at_bit - 1)) + self.seq.bitmap_base); } }
+     None
+   [d] is rev_at_bit - at_bit, the number of iterations left before the loop condition fails
+   (at_bit grows by one per iteration, rev_at_bit is not touched). *)
+Fixpoint it_next_loop (k : nkind) (s : numset) (d : nat) (at_bit rev_at_bit : Z) : istep :=
+  match d with
+  | O => IDone
+  | S d' =>
+    match have_one s at_bit with
+    | None => IPanicS
+    | Some h =>
+      let at_bit := at_bit + 1 in
+      if h then
+        (if n_hi k <? (at_bit - 1) + ns_base s then IPanicS
+         else IYield ((at_bit - 1) + ns_base s) (IT at_bit rev_at_bit))
+      else it_next_loop k s d' at_bit rev_at_bit
+    end
+  end.
+Definition it_next (k : nkind) (s : numset) (it : nsit) : istep :=
+  it_next_loop k s (Z.to_nat (it_rev it - it_at it)) (it_at it) (it_rev it).
+
+(* NumberSetIter::next_back:
+     while self.at_bit < self.rev_at_bit {
+       self.rev_at_bit -= 1;
+       let have_one = ...bitmap[rev_at_bit / 32] & (1 << (31 - rev_at_bit % 32)) != 0;
+       if have_one { return Some(N::from(i64::from(self.rev_at_bit)) + self.seq.bitmap_base); } }
+     None *)
+Fixpoint it_back_loop (k : nkind) (s : numset) (d : nat) (at_bit rev_at_bit : Z) : istep :=
+  match d with
+  | O => IDone
+  | S d' =>
+    let rev_at_bit := rev_at_bit - 1 in
+    match have_one s rev_at_bit with
+    | None => IPanicS
+    | Some h =>
+      if h then
+        (if n_hi k <? rev_at_bit + ns_base s then IPanicS
+         else IYield (rev_at_bit + ns_base s) (IT at_bit rev_at_bit))
+      else it_back_loop k s d' at_bit rev_at_bit
+    end
+  end.
+Definition it_next_back (k : nkind) (s : numset) (it : nsit) : istep :=
+  it_back_loop k s (Z.to_nat (it_rev it - it_at it)) (it_at it) (it_rev it).
+
+(* what a consumer collects: the yielded numbers, a panic, or (model only) fuel exhausted *)
+Inductive ires := IOk (l : list Z) | IPanic | IFuel.
+Definition icons (x : Z) (r : ires) : ires := match r with IOk l => IOk (x :: l) | o => o end.
+
+(* iter().collect() / iter().rev().collect() / alternately next() and next_back() until the first
+   None ([front] says whose turn it is).  Fuel = number of calls that may still yield. *)
+Fixpoint drain (k : nkind) (s : numset) (alternate : bool) (n : nat) (front : bool) (it : nsit) : ires :=
+  match (if front then it_next k s it else it_next_back k s it) with
+  | IDone => IOk []
+  | IPanicS => IPanic
+  | IYield x it' =>
+    match n with
+    | O => IFuel
+    | S n' => icons x (drain k s alternate n' (if alternate then negb front else front) it')
+    end
+  end.
+Definition ns_fuel (s : numset) : nat := Z.to_nat (ns_bits s).
+Definition ns_collect (k : nkind) (s : numset) : ires := drain k s false (ns_fuel s) true (ns_iter_start s).
+Definition ns_collect_rev (k : nkind) (s : numset) : ires := drain k s false (ns_fuel s) false (ns_iter_start s).
+Definition ns_collect_alt (k : nkind) (s : numset) : ires := drain k s true (ns_fuel s) true (ns_iter_start s).
+
+(* NumberSet::is_empty: self.num_bits == 0 || self.iter().next().is_none();  None = panic *)
+Definition ns_is_empty (k : nkind) (s : numset) : option bool :=
+  if ns_bits s =? 0 then Some true
+  else match it_next k s (ns_iter_start s) with
+       | IDone => Some true
+       | IYield _ _ => Some false
+       | IPanicS => None
+       end.
+
+(* NumberSet::base *)
+Definition ns_base_fn (s : numset) : Z := ns_base s.
+
+(* specification side: bit i of the set is word i / 32, bit 31 - i % 32 (MSB first); the members of
+   the window [a, r) in ascending order *)
+Definition ns_bit (ws : list Z) (i : Z) : bool :=
+  Z.testbit (nth (Z.to_nat (i / 32)) ws 0) (31 - i mod 32).
+Definition members_between (s : numset) (a r : Z) : list Z :=
+  map (fun i => i + ns_base s)
+      (filter (ns_bit (ns_words s)) (map Z.of_nat (seq (Z.to_nat a) (Z.to_nat (r - a))))).
+Definition members (s : numset) : list Z := members_between s 0 (ns_bits s).
+
 (* NumberSet::len_serialized *)
 Definition ns_len_serialized (k : nkind) (s : numset) : Z := num_size k + 4 + 4 * wcount (ns_bits s).
 
